@@ -353,9 +353,70 @@ mod attack {
         };
         Some(et::verify_sec_to_pub_transfer_data(&context, &pk, &enc_balance, &forged))
     }
+
+    /// Overspending forgery: balance 5, transfer 10.  The remaining amount is s' = 5 - 10 = -5 in the field
+    /// (low chunk r - 5, far outside [0, 2^32)); the accounting sigma proof is HONEST for it (the relation
+    /// S = a + s' holds in the exponent), the range proof on the transferred amount is honest, and the range
+    /// proof on the remaining amount is necessarily bogus (a valid proof for [0, 0] with the same randomness).
+    /// Only the remaining-amount range proof stands between this transfer and acceptance.
+    pub fn overspend_forgery(seed: u64) -> Option<bool> {
+        use concordium_base::curve_arithmetic::Field;
+        let mut csprng = StdRng::seed_from_u64(seed ^ 0x0e5);
+        let context = GlobalContext::<G1>::generate_size(String::from("verif-c12"), 64);
+        let h = context.encryption_in_exponent_generator();
+        let gens = context.bulletproof_generators().take(64);
+        let sk_sender: SecretKey<G1> = SecretKey::generate(context.elgamal_generator(), &mut csprng);
+        let pk_sender = PublicKey::from(&sk_sender);
+        let sk_receiver: SecretKey<G1> = SecretKey::generate(context.elgamal_generator(), &mut csprng);
+        let pk_receiver = PublicKey::from(&sk_receiver);
+        let (enc_balance, _) = et::encrypt_amount(&context, &pk_sender, Amount::from_micro_ccd(5), &mut csprng);
+        let S = enc_balance.join();
+        let a_chunks = [10u64, 0u64];
+        let mut minus5 = G1::scalar_from_u64(5); minus5.negate();
+        let sp_scalars = [minus5, G1::scalar_from_u64(0)];
+        let (A, A_rand): (Vec<_>, Vec<_>) = a_chunks.iter().map(|&x| pk_receiver.encrypt_exponent_rand_given_generator(&Value::<G1>::from(x), h, &mut csprng)).unzip();
+        let (S_prime, S_prime_rand): (Vec<_>, Vec<_>) = sp_scalars.iter().map(|x| pk_sender.encrypt_exponent_rand_given_generator(&Value::<G1>::new(*x), h, &mut csprng)).unzip();
+        let mut ro = RandomOracle::domain("EncryptedTransfer");
+        ro.append_message(b"ctx", &&context);
+        ro.append_message(b"receiver_pk", &&pk_receiver);
+        ro.append_message(b"sender_pk", &&pk_sender);
+        let protocol = gen_enc_trans_proof_info(&pk_sender, &pk_receiver, &S, &A, &S_prime, h);
+        let secret = EncTransSecret {
+            dlog_secret: Rc::new(sk_sender.scalar),
+            encexp1_secrets: a_chunks.iter().zip(A_rand.iter()).map(|(x, r)| ComEqSecret::<G1> { r: PedersenRandomness::from_u64(*x), a: r.to_value() }).collect(),
+            encexp2_secrets: sp_scalars.iter().zip(S_prime_rand.iter()).map(|(x, r)| ComEqSecret::<G1> { r: PedersenRandomness::new(*x), a: r.to_value() }).collect(),
+        };
+        let accounting = prove(&mut ro, &protocol, secret, &mut csprng)?;
+        let to_pedrand = |rs: &[Randomness<G1>]| -> Vec<PedersenRandomness<G1>> { rs.iter().map(|x| PedersenRandomness::from_value(&x.to_value())).collect() };
+        let a_sc: Vec<<G1 as Curve>::Scalar> = a_chunks.iter().copied().map(G1::scalar_from_u64).collect();
+        let bp_a = bulletprove(ProofVersion::Version1, &mut ro, &mut csprng, 32, 2, &a_sc, &gens,
+            &CommitmentKey { g: *h, h: pk_receiver.key }, &to_pedrand(&A_rand))?;
+        let zeros: Vec<<G1 as Curve>::Scalar> = vec![G1::scalar_from_u64(0), G1::scalar_from_u64(0)];
+        let bp_s = bulletprove(ProofVersion::Version1, &mut ro, &mut csprng, 32, 2, &zeros, &gens,
+            &CommitmentKey { g: *h, h: pk_sender.key }, &to_pedrand(&S_prime_rand))?;
+        let forged = EncryptedAmountTransferData {
+            remaining_amount: EncryptedAmount { encryptions: [S_prime[0], S_prime[1]] },
+            transfer_amount: EncryptedAmount { encryptions: [A[0], A[1]] },
+            index: 0u64.into(),
+            proof: EncryptedAmountTransferProof { accounting, transfer_amount_correct_encryption: bp_a, remaining_amount_correct_encryption: bp_s },
+        };
+        // sanity: the forgery is only stopped by the remaining range proof - the sigma proof alone verifies
+        let mut ro2 = RandomOracle::domain("EncryptedTransfer");
+        ro2.append_message(b"ctx", &&context);
+        ro2.append_message(b"receiver_pk", &&pk_receiver);
+        ro2.append_message(b"sender_pk", &&pk_sender);
+        if !verify(&mut ro2, &protocol, &forged.proof.accounting) { return None; }
+        Some(et::verify_transfer_data(&context, &pk_receiver, &pk_sender, &enc_balance, &forged))
+    }
 }
 
 fn attacks(seed: u64) {
+    match guarded(|| attack::overspend_forgery(seed)) {
+        Ok(Some(acc)) => println!("{}", json!({"k":"attack","name":"overspend-remaining-out-of-range","built":true,"accepted":acc,"ok":!acc,
+            "what":"balance 5, transfer 10: honest sigma proof for remaining = -5 mod r, honest transfer range proof, bogus remaining range proof"})),
+        Ok(None) => println!("{}", json!({"k":"attack","name":"overspend-remaining-out-of-range","built":false,"ok":false,"why":"forgery could not be built (its sigma proof must verify)"})),
+        Err(e) => println!("{}", json!({"k":"attack","name":"overspend-remaining-out-of-range","built":false,"ok":false,"panic":e})),
+    }
     for (name, cut) in [("sec2pub-truncated-response-public-amount", true), ("sec2pub-truncated-response-remaining-chunk", false)] {
         match guarded(|| attack::truncated_forgery_sec_to_pub(seed, cut)) {
             Ok(Some(acc)) => println!("{}", json!({"k":"attack","name":name,"built":true,"accepted":acc,"ok":!acc,
